@@ -4,8 +4,8 @@ package vc
 
 import (
 	"fmt"
-	"regexp"
 	"go/token"
+	"regexp"
 	"strings"
 )
 
@@ -20,8 +20,8 @@ type Obligation struct {
 	NFact  int
 	PC     string
 	Goal   string
-	Expect string // "unsat" (normal) or "sat" (vacuity guards: must NOT be unsat)
-	Text   string // human readable goal (source text)
+	Expect string   // "unsat" (normal) or "sat" (vacuity guards: must NOT be unsat)
+	Text   string   // human readable goal (source text)
 	Skip   [][2]int // ranges of fact indices that cannot matter (bodies of completed loops without escaping paths)
 
 	// filled by the solver stage
@@ -49,20 +49,20 @@ type FuncCtx struct {
 	Obls    []*Obligation
 	inputs  []InputLeaf // symbolic inputs for replay
 	labelN  map[string]int
-	dead    [][2]int // fact index ranges scoped to finished loop bodies
+	dead    [][2]int            // fact index ranges scoped to finished loop bodies
 	merges  map[string][]string // merged path condition -> its disjuncts
 	pcDefs  map[string]string   // named path condition -> its definition
-	Aborted string // non-empty: out-of-subset reason
+	Aborted string              // non-empty: out-of-subset reason
 	sorts   map[string]string
 }
 
 // InputLeaf describes one symbolic input (for counterexample replay).
 type InputLeaf struct {
-	Path string // Go-ish access path, e.g. "b.Data" or "p"
-	Kind string // int, bv, bool, slice, err, str
-	Term string // SMT term (or arr term for slices)
-	Aux  map[string]string
-	Go   string // Go type string
+	Path  string // Go-ish access path, e.g. "b.Data" or "p"
+	Kind  string // int, bv, bool, slice, err, str
+	Term  string // SMT term (or arr term for slices)
+	Aux   map[string]string
+	Go    string     // Go type string
 	Elems []ElemLeaf // for slices: the heaps holding the element leaves
 }
 
